@@ -408,7 +408,9 @@ Section TailOnly.
     end.
 End TailOnly.
 
-Definition regex_fuel (r : regex) : nat := S (S (List.length (r_inputs r))).
+(** Every nested call of the two walks below marks one more key of the follow table as visited,
+    so [|follow table| + 2] levels suffice (Proofs/RegexFuel.v). *)
+Definition regex_fuel (r : regex) : nat := S (S (List.length (regex_follow r))).
 
 Definition check_tail_only (r : regex) : rres unit :=
   do _ <- tail_only r (regex_follow r) (regex_fuel r) (regex_first r) None [r_end r];
